@@ -30,3 +30,74 @@ def c09_constants(task):
     out["results"].append(_ob("C09/setup-builds-paper-copy-as-own-root-with-same-data", ("C09",), ok, dict(found_positions=pos)))
     out["samples"].append(dict(paper_amount=paper_amount, initial_capital_default=ic))
     return out
+
+
+def _calls_in(node):
+    for n in ast.walk(node):
+        if isinstance(n, ast.Call):
+            yield n
+
+
+def c11_static(task):
+    """write-frame / determinism obligations on the functions that build a backtest, decided on the AST:
+    (a) the template strategy is deep-copied before anything is done to it, (b) the input frames are only read
+    (no subscript/attribute store, no in-place method) and everything stored comes from a fresh constructor
+    (pd.concat, DataFrame(...), .copy(), deepcopy), (c) no sequence is derived from the iteration order of a set."""
+    prog = Program()
+    out = dict(results=[], samples=[])
+    P = ("C11",)
+    init = prog.func("bt.backtest.Backtest.__init__").node
+    src_init = ast.unparse(init)
+    # (a)
+    i_copy = src_init.find("self.strategy = deepcopy(strategy)")
+    later_uses = [m for m in ("strategy.use_integer_positions", "strategy.set_commissions", "strategy.setup", "strategy.adjust") if (" " + m) in src_init.replace("self.strategy", "SELF_STRAT")]
+    out["results"].append(_ob("C11/Backtest.__init__/template-deep-copied-and-never-touched", P, i_copy >= 0 and not later_uses, dict(template_touched_by=later_uses)))
+    # (b) no store into parameters `data`, `additional_data`, `strategy`, `universe`
+    INPLACE = {"fillna", "dropna", "sort_index", "sort_values", "drop", "rename", "update", "pop", "clear", "setdefault", "append", "extend", "insert", "remove", "__setitem__", "iloc", "loc", "at", "iat"}
+    for q, params in (("bt.backtest.Backtest.__init__", ["strategy", "data", "additional_data"]), ("bt.backtest.Backtest._process_data", ["data", "additional_data"]),
+                      ("bt.core.StrategyBase.setup", ["universe"]), ("bt.core.SecurityBase.setup", ["universe"]), ("bt.core.CouponPayingSecurity.setup", ["universe"])):
+        fn = prog.func(q).node
+        bad = []
+        for n in ast.walk(fn):
+            tgts = []
+            if isinstance(n, ast.Assign):
+                tgts = n.targets
+            elif isinstance(n, (ast.AugAssign, ast.AnnAssign)):
+                tgts = [n.target]
+            elif isinstance(n, ast.Delete):
+                tgts = n.targets
+            for t in tgts:
+                base = t
+                while isinstance(base, (ast.Subscript, ast.Attribute)):
+                    base = base.value
+                if isinstance(t, (ast.Subscript, ast.Attribute)) and isinstance(base, ast.Name) and base.id in params:
+                    bad.append("store into %s at line %d" % (ast.unparse(t), n.lineno))
+            if isinstance(n, ast.Call) and isinstance(n.func, ast.Attribute) and isinstance(n.func.value, ast.Name) and n.func.value.id in params:
+                if n.func.attr in INPLACE or any(k.arg == "inplace" for k in n.keywords):
+                    bad.append("in-place call %s at line %d" % (ast.unparse(n.func), n.lineno))
+        out["results"].append(_ob("C11/%s/inputs-only-read" % q.split(".", 2)[-1], P, not bad, dict(writes=bad)))
+    # universe kept by a strategy is a copy, never the caller's frame
+    ssrc = ast.unparse(prog.func("bt.core.StrategyBase.setup").node)
+    out["results"].append(_ob("C11/StrategyBase.setup/universe-is-copied", P, "funiverse = universe.copy()" in ssrc and "self._universe = funiverse" in ssrc, {}))
+    # (c) determinism: no list()/iteration/indexing derived from a set's iteration order
+    for q in ("bt.core.StrategyBase.setup", "bt.core.Node._add_children", "bt.backtest.Backtest._process_data", "bt.backtest.Backtest.__init__", "bt.core.SecurityBase.setup"):
+        fn = prog.func(q).node
+        bad = []
+
+        def is_setexpr(x):
+            if isinstance(x, ast.Call) and isinstance(x.func, ast.Name) and x.func.id in ("set", "frozenset"):
+                return True
+            if isinstance(x, ast.Call) and isinstance(x.func, ast.Attribute) and x.func.attr in ("intersection", "union", "difference", "symmetric_difference") and is_setexpr(x.func.value):
+                return True
+            if isinstance(x, (ast.Set, ast.SetComp)):
+                return True
+            return False
+
+        for n in ast.walk(fn):
+            if isinstance(n, ast.Call) and isinstance(n.func, ast.Name) and n.func.id in ("list", "tuple", "sorted") and n.args and is_setexpr(n.args[0]) and n.func.id != "sorted":
+                bad.append("%s at line %d" % (ast.unparse(n)[:80], n.lineno))
+            if isinstance(n, (ast.For, ast.comprehension)) and is_setexpr(n.iter):
+                bad.append("iteration over a set at line %d" % getattr(n, "lineno", 0))
+        out["results"].append(_ob("C11/%s/no-order-taken-from-a-set" % q.split(".", 2)[-1], P, not bad, dict(order_dependent=bad, why="set iteration order of str depends on PYTHONHASHSEED: universe column order would differ between processes")))
+    out["samples"].append(dict(static_obligations=len(out["results"])))
+    return out
